@@ -645,17 +645,19 @@ fn build_lists<'a>(
 
 fn list_item<'a>(s: &'a SimpleTerm<'a>, d: &'a PrettifiableDataset) -> Option<&'a SimpleTerm<'a>> {
     let mut ret = None;
+    let mut rests = 0;
     for q in d.quads_matching([s], Any, Any, Any) {
         let q = q.unwrap();
         if rdf::rest == q.p() {
-            continue;
+            rests += 1;
         } else if rdf::first == q.p() && ret.is_none() {
             ret = Some(q.o());
         } else {
             return None;
         }
     }
-    ret
+    // a well-formed list node has exactly one rdf:rest (several of them can not be written with the ( ) syntax)
+    if rests == 1 { ret } else { None }
 }
 
 fn find_subject<T: Term>(s: T, swt: &SubjectsWithType) -> Option<usize> {
